@@ -14,6 +14,12 @@ def sparseTruncFirstOfSource : Bool :=
   (Restic.Gen.ensureSize_calls.takeWhile (· != "truncateSparse")).contains "f.Truncate" &&
   Restic.Gen.ensureSize_calls.contains "truncateSparse"
 
+/-- Does `verifyFile` look at the link count (`fs.ExtendedStat`) and so discard the state of hard
+    linked files that need a restore? `false` on the unmodified source. -/
+def hardlinkDropsStateOfSource : Bool :=
+  Restic.Gen.verifyFile_calls.contains "fs.ExtendedStat" &&
+  Restic.Gen.verifyFile_calls.contains "state.NeedsRestore"
+
 /-- `createFile` ends in `ensureSize`, after the O_EXCL re-creation (`fs.OpenFile` ×3) -/
 def createFileEndsInEnsureSize : Bool :=
   Restic.Gen.createFile_calls.getLast? == some "ensureSize" &&
